@@ -7,12 +7,20 @@
     global for every parameter; the error parameter (>= 1 is divided by the number of non-N
     bases) and every other field of the adapter description; which parts of a linked adapter
     are required (-a: the anchored ones, -g: both, overridden by required/optional).
-    NOT proved (C18 partial): a full round trip parse(show(ast)) = meaning(ast) over the whole
-    grammar (names, brace expansion, parameter spellings, file: variants); that is covered by the
-    correspondence of the model with make_adapters_from_specifications on strings printed from
-    random ASTs and by the documentation-table oracle. *)
+    The round trip over the documented grammar is a theorem as well (Proofs/ParserRoundTrip.v, Proofs/ParserBraces.v):
+    the printed form of an abstract specification -- optional name=, one restriction marker (^, leading Xs, $,
+    trailing Xs), a core made of segments "text" or "text{n}", and any list of search parameters in any of their
+    documented spellings with flag, integer or decimal values, joined by ';' -- is parsed into exactly the parts it was
+    printed from (C18_round_trip, C18_round_trip_braces, C18_parameters_round_trip, C18_brace_expansion); a printed
+    specification without "..." builds the single adapter of those parts and A...B the linked adapter of the two
+    (C18_adapter_from_printed, C18_linked_notation); file:, ^file: and file$: turn every record into a specification
+    with the anchor the prefix says, under the file-level parameters (C18_file, C18_file_anchored5, C18_file_anchored3).
+    What is still outside the theorems (C18 partial): numerals other than digits and digits.digits, blanks around
+    the separators (the parser strips them; the printed forms contain none), the text of error messages and the exit
+    status (checked against the implementation by the documentation-table oracle), and reading the FASTA file itself
+    (the records are an input of the model). *)
 From Coq Require Import ZArith QArith List Bool.
-From CV Require Import Model.Base Model.Adapters Model.Parser Proofs.ParserProofs.
+From CV Require Import Model.Base Model.Adapters Model.Parser Proofs.ParserProofs Proofs.ParserRoundTrip Proofs.ParserBraces.
 Import ListNotations.
 Open Scope Z_scope.
 
@@ -104,3 +112,75 @@ Example C18_example_prefix :
   make_from_spec [94;65;67;123;51;125;71;59;110;111;105;110;100;101;108;115] TFront ex_g []
   = Ok [OSingle (mkD Prefix [65;67;67;67;71] (Qmake 1 10) 5 false false false false None)].
 Proof. vm_compute. reflexivity. Qed.
+
+(** ---- the round trip: printed notation -> parsed parts *)
+Theorem C18_parameters_round_trip : forall fs, Forall wf_field fs -> NoDup (map f_key fs) ->
+  parse_search_parameters (pspec_of fs) = post_params (map meaning fs).
+Proof. exact parse_search_parameters_printed. Qed.
+Print Assumptions C18_parameters_round_trip.
+
+Theorem C18_round_trip : forall a t, wf_sast a -> parse_spec (show_sast a) t = spec_meaning a t.
+Proof. exact parse_spec_printed. Qed.
+Print Assumptions C18_round_trip.
+
+Theorem C18_brace_expansion : forall pre l post, nobrace pre -> nobrace post -> Forall wf_seg l ->
+  expand_braces (pre ++ show_segs l ++ post) = Ok (pre ++ segs_meaning l ++ post).
+Proof. exact expand_braces_segs. Qed.
+Print Assumptions C18_brace_expansion.
+
+Theorem C18_round_trip_braces : forall a t, wf_bast a ->
+  parse_spec (show_bast a) t =
+  match post_params (map meaning (b_fields a)) with
+  | Err => Err
+  | Ok ps => finish (b_name a) (mark_front (b_mark a)) (mark_back (b_mark a)) (segs_meaning (b_segs a)) ps t
+  end.
+Proof. exact parse_spec_printed_braces. Qed.
+Print Assumptions C18_round_trip_braces.
+
+Theorem C18_adapter_from_printed : forall a t base rw aw nm, wf_sast a -> no_sub3 (show_sast a) = true ->
+  make_adapter (show_sast a) t base rw aw nm =
+  match spec_meaning a t with
+  | Err => Err
+  | Ok sp => match build_single sp nm base rw aw with Ok d => Ok (OSingle d) | Err => Err end
+  end.
+Proof. exact make_adapter_printed. Qed.
+Print Assumptions C18_adapter_from_printed.
+
+Theorem C18_linked_notation : forall a1 a2 t base rw aw nm, wf_sast a1 -> wf_sast a2 ->
+  no_sub3 (show_sast a1 ++ [46; 46]) = true ->
+  make_adapter (show_sast a1 ++ dots ++ show_sast a2) t base rw aw nm =
+    make_linked (show_sast a1) (show_sast a2) nm t base rw aw
+  /\ parse_spec (show_sast a1) TFront = spec_meaning a1 TFront
+  /\ parse_spec (show_sast a2) TBack = spec_meaning a2 TBack.
+Proof. exact make_adapter_linked_printed. Qed.
+Print Assumptions C18_linked_notation.
+
+Theorem C18_file : forall path fs t g records, ~ In 59 path -> Forall wf_field fs -> NoDup (map f_key fs) ->
+  make_from_spec (file_prefix ++ file_tail path fs) t g records = from_records [] [] fs t g records.
+Proof. exact file_plain. Qed.
+Print Assumptions C18_file.
+
+Theorem C18_file_anchored5 : forall path fs t g records, ~ In 59 path -> Forall wf_field fs -> NoDup (map f_key fs) ->
+  make_from_spec (94 :: file_prefix ++ file_tail path fs) t g records = from_records [94] [] fs t g records.
+Proof. exact file_anchored5. Qed.
+Print Assumptions C18_file_anchored5.
+
+Theorem C18_file_anchored3 : forall path fs t g records, ~ In 59 path -> Forall wf_field fs -> NoDup (map f_key fs) ->
+  make_from_spec ([102; 105; 108; 101; 36; 58] ++ file_tail path fs) t g records = from_records [] [36] fs t g records.
+Proof. exact file_anchored3. Qed.
+Print Assumptions C18_file_anchored3.
+
+(** the premises are satisfiable: "adap=^ACGTNNAC;e=0.15;noindels" and "^AC{3}G;noindels" are printed forms of
+    well-formed abstract specifications, and they mean what the notation says *)
+Example C18_round_trip_instance :
+  wf_sast ex_sast /\ no_sub3 (show_sast ex_sast) = true /\
+  show_sast ex_sast = [97;100;97;112;61;94;65;67;71;84;78;78;65;67;59;101;61;48;46;49;53;59;110;111;105;110;100;101;108;115] /\
+  spec_meaning ex_sast TFront = Ok (mkSpec (Some [97;100;97;112]) RAnchored [65;67;71;84;78;78;65;67]
+                                           [(KIndels, VInt 0); (KMaxErrors, VDec 15 2)] TFront false) /\
+  wf_bast ex_bast /\
+  show_bast ex_bast = [94;65;67;123;51;125;71;59;110;111;105;110;100;101;108;115] /\
+  parse_spec (show_bast ex_bast) TFront = Ok (mkSpec None RAnchored [65;67;67;67;71] [(KIndels, VInt 0)] TFront false).
+Proof.
+  destruct ex_sast_wf as (A & B & C). destruct ex_bast_round_trip as (D & E).
+  repeat split; try assumption; try exact ex_sast_meaning; try exact ex_bast_wf; apply A || apply ex_bast_wf.
+Qed.
